@@ -41,7 +41,7 @@ struct Shadow {
     scripts: BTreeMap<[u8; 28], (u8, Vec<u8>, bool)>, datums: BTreeMap<[u8; 32], (Vec<u8>, bool)>,
     /// key: (0, input) | (1, policy)
     redeemers: BTreeMap<(u8, Vec<u8>, u64), (Vec<u8>, bool, Option<(u64, u64)>)>,
-    lang: bool, aux: Option<Vec<u8>>,
+    lang: Option<BTreeMap<u8, Vec<i64>>>, aux: Option<Vec<u8>>,
 }
 
 /// parse the output description starting at `t[0]`; returns the pallas Output (or the failure
@@ -120,7 +120,9 @@ impl VOut {
 struct View {
     inputs: Vec<([u8; 32], u64)>, outputs: Vec<VOut>, fee: u64, ttl: Option<u64>, vf: Option<u64>,
     mint: BTreeMap<[u8; 28], BTreeMap<Vec<u8>, i64>>, mint_present: bool, coll: Vec<([u8; 32], u64)>, signers: Vec<[u8; 28]>,
-    net: Option<u8>, cr: Option<VOut>, refs: Vec<([u8; 32], u64)>, sdh: bool, adh: Option<[u8; 32]>,
+    net: Option<u8>, cr: Option<VOut>, refs: Vec<([u8; 32], u64)>, sdh: Option<[u8; 32]>, adh: Option<[u8; 32]>,
+    /// bytes of witness-set fields 5 and 4 as they sit in the transaction
+    rd_raw: Option<Vec<u8>>, pd_raw: Option<Vec<u8>>,
     scripts: Vec<(u8, Vec<u8>)>, datums: Vec<Vec<u8>>, rd: Vec<(u8, u32, Vec<u8>, u64, u64)>, aux: Option<Vec<u8>>,
     body_hash_ok: bool, empty_sets: Vec<&'static str>,
 }
@@ -202,7 +204,8 @@ fn view(tx: &BuiltTransaction) -> Result<View, String> {
         net: body.network_id.map(|n| match n { conway::NetworkId::Testnet => 0, conway::NetworkId::Mainnet => 1 }),
         cr: match &body.collateral_return { None => None, Some(o) => Some(view_out(o)?) },
         refs: body.reference_inputs.iter().flat_map(|s| s.iter()).map(ti).collect(),
-        sdh: body.script_data_hash.is_some(),
+        sdh: body.script_data_hash.map(|h| { let mut a = [0u8; 32]; a.copy_from_slice(h.as_ref()); a }),
+        rd_raw: ws.redeemer.as_ref().map(|r| r.raw_cbor().to_vec()), pd_raw: ws.plutus_data.as_ref().map(|r| r.raw_cbor().to_vec()),
         adh: body.auxiliary_data_hash.map(|h| { let mut a = [0u8; 32]; a.copy_from_slice(h.as_ref()); a }),
         scripts, datums, rd, aux, body_hash_ok, empty_sets,
     })
@@ -216,7 +219,10 @@ fn show_view(v: &View) -> String {
     format!("in={} out=[{}] fee={} ttl={} vf={} mint={} coll={} sig=[{}] net={} cr={} ref={} sdh={} adh={} sc=[{}] pd=[{}] rd=[{}] aux={} id={}",
         l(&v.inputs), v.outputs.iter().map(|o| o.show()).collect::<Vec<_>>().join(" "), v.fee, opt(&v.ttl), opt(&v.vf),
         show_assets(&v.mint), l(&v.coll), v.signers.iter().map(|h| hex(h)).collect::<Vec<_>>().join(" "), opt(&v.net),
-        v.cr.as_ref().map(|o| o.show()).unwrap_or("none".into()), l(&v.refs), v.sdh as u8, v.adh.is_some() as u8,
+        v.cr.as_ref().map(|o| o.show()).unwrap_or("none".into()), l(&v.refs),
+        // the value where it does not depend on a HashMap iteration order, else its presence
+        match &v.sdh { None => "0".to_string(), Some(h) => if v.rd.len() <= 1 && v.datums.len() <= 1 { hex(h) } else { "1".into() } },
+        v.adh.is_some() as u8,
         sc.join(" "), pd.join(" "), rd.join(" "), v.aux.as_ref().map(|b| hex(b)).unwrap_or("none".into()), v.body_hash_ok as u8)
 }
 
@@ -297,7 +303,19 @@ fn oracle(v: &View, sh: &Shadow, out: &mut Out) {
         (None, None) => {}
         _ => out.viol("aux-data-hash-presence", ""),
     }
-    if v.sdh != sh.lang { out.viol("script-data-hash-presence", format!("present={} language views staged={}", v.sdh, sh.lang)); }
+    // script integrity hash: with language views staged and at least one redeemer or witness datum, and then
+    // blake2b-256 over (redeemers as written | a0) ++ (datums as written) ++ (language views, only with redeemers | a0)
+    let want_sdh = sh.lang.is_some() && (!sh.redeemers.is_empty() || !sh.datums.is_empty());
+    if v.sdh.is_some() != want_sdh { out.viol("script-data-hash-presence", format!("present={} language views staged={} redeemers={} datums={}", v.sdh.is_some(), sh.lang.is_some(), sh.redeemers.len(), sh.datums.len())); }
+    if let (Some(h), Some(lv)) = (&v.sdh, &sh.lang) {
+        let mut buf = v.rd_raw.clone().unwrap_or(vec![0xa0]);
+        if let Some(d) = &v.pd_raw { buf.extend(d); }
+        if v.rd_raw.is_some() {
+            let views: conway::LanguageViews = lv.iter().map(|(k, c)| (*k, c.clone())).collect();
+            buf.extend(minicbor::to_vec(&views).unwrap());
+        } else { buf.push(0xa0); }
+        if *Hasher::<256>::hash(&buf) != *h { out.viol("script-data-hash-wrong", format!("{} redeemers, {} datums", v.rd.len(), v.datums.len())); }
+    }
     // redeemers: one per staged redeemer, pointing at its target in the ledger's order
     // (ascending *set* of inputs; ascending policy ids of the mint field)
     let policies: Vec<[u8; 28]> = wm.keys().cloned().collect();
@@ -414,7 +432,7 @@ pub fn run_case(case: &Case, out: &mut Out) {
             "rmdatumhash" => { let h = h32(a(1)); if simple!(|s: StagingTransaction| s.remove_datum_by_hash(h.into())) { sh.datums.remove(&h); } }
             "addlang" => {
                 let k = a(1); let costs: Vec<i64> = op[3..].iter().map(|x| x.parse().unwrap()).collect();
-                if simple!(|s: StagingTransaction| s.add_language(kind_of(k), costs.clone())) { if k != "native" { sh.lang = true; } }
+                if simple!(|s: StagingTransaction| s.add_language(kind_of(k), costs.clone())) { if k != "native" { sh.lang.get_or_insert_with(BTreeMap::new).insert(kind_no(k) - 1, costs); } }
             }
             "spendrd" | "mintrd" => {
                 let (b, ok) = (unhex(a(2)).unwrap(), a(3) == "1");
